@@ -314,6 +314,8 @@ class World:
         self.log = log
         self.apps = list(config['apps'])
         self.zk = zkmod.SimZk(clock, log)
+        # order in which ZooKeeper hands out children (None: by name)
+        self.zk.order_seed = config.get('child_order')
         self.admin = self.zk.connect('admin')
         self.api_client = self.zk.connect('cellapi')
         for path in (z.SCHEDULED, z.path.appmonitor(), z.TRACE):
@@ -343,7 +345,8 @@ class World:
             'instances_deleted', 'lost_ack', 'suspended_skips',
             'monitor_deleted', 'monitor_recreated', 'policy_lifo',
             'policy_fifo', 'budget_exhausted', 'budget_binding',
-            'scale_down', 'prompt_evals', 'lagging_evals',
+            'scale_down', 'scale_down_partial',
+            'scale_down_unordered_children', 'prompt_evals', 'lagging_evals',
             'stale_view_action', 'liveness_stretches', 'converged',
             'deadline_checks', 'deadline_checks_after_wait',
             'resumed_after_suspension', 'natural_404',
@@ -664,6 +667,12 @@ class World:
                     else 'fifo'
                 surplus = len(have) - target
                 self.probes['scale_down'] += 1
+                if 0 < target < len(have):
+                    self.probes['scale_down_partial'] += 1
+                    if [i for i in told.sched if _app_of(i) == app] != have:
+                        # delivered out of creation order: only code that
+                        # orders the instances itself picks the right ones
+                        self.probes['scale_down_unordered_children'] += 1
                 if rec['outcome'] != 'ok':
                     ev['nontrivial'] = True
                 if surplus <= 0:
@@ -939,7 +948,7 @@ OP_WEIGHTS = [
     ('eval', 30), ('deliver', 10), ('deliver_all', 6), ('kill', 18),
     ('spawn', 4), ('mon_set', 9), ('mon_del', 2.5), ('mon_bounce', 1.5),
     ('rest_fail', 5), ('app_config', 1.5), ('advance', 7), ('restart', 0.7),
-    ('churn', 3),
+    ('churn', 3), ('scale_in', 2.5),
 ]
 ADVANCES = [2.0, 30.0, 120.0, 299.0, 301.0, 600.0, 900.0, 1800.0, 3600.0,
             7200.0]
@@ -1100,6 +1109,32 @@ class Generator:
         return {'op': 'deliver_all'}
 
 
+    def g_scale_in(self, world):
+        """Several instances of one application with gaps in their ids,
+        then the target is lowered below what is running."""
+        app = self._app(world)
+        mon = world.zk_monitor(app)
+        policy = self.rng.choice([None, 'fifo', 'lifo', 'lifo'])
+        nlive = len(world.live(app))
+        add = self.rng.randint(2, 5)
+        ops = [{'op': 'spawn', 'app': app, 'n': add}]
+        for _ in range(self.rng.choice([0, 1, 1, 2])):
+            ops.append({'op': 'kill', 'app': app,
+                        'which': self.rng.randint(0, nlive + add - 1)})
+        if self.rng.random() < 0.5:
+            ops.append({'op': 'spawn', 'app': app,
+                        'n': self.rng.randint(1, 3)})
+        ops.append({'op': 'mon_set', 'app': app,
+                    'count': self.rng.randint(1, max(1, nlive + add - 2)),
+                    'policy': policy if mon is None or
+                    self.rng.random() < 0.6 else mon[1]})
+        ops.append({'op': 'deliver_all'} if self.sched.random() < 0.8
+                   else {'op': 'deliver', 'n': self.sched.choice([1, 2, 3])})
+        ops.append({'op': 'eval'})
+        self.follow.extend(ops[1:])
+        return ops[0]
+
+
 def make_config(_prop, tier, rng):
     big = tier == 'thorough'
     napps = rng.choice([1, 1, 2, 3])
@@ -1119,6 +1154,10 @@ def make_config(_prop, tier, rng):
         else:
             wmul[key] = rng.choice([0.0, 0.5, 1.0, 1.0, 2.0])
     cfg['wmul'] = wmul
+    # ZooKeeper returns children in no particular order: for most runs the
+    # simulated server uses an arbitrary fixed order derived from this value
+    cfg['child_order'] = rng.randint(1, 1 << 30) if rng.random() < 0.7 \
+        else None
     return cfg
 
 
